@@ -128,8 +128,15 @@ class Requests(Part):
                     sur.regressor.fit([[0.0, 0.0], [1.0, 1.0]], [[0.25, -7.0], [3.25, -6.0]])
                 sur.trained = True
 
+            stateful = case["cseed"] % 3 == 1
+
             def predict_hook(individual):
                 i = state["i"]
+                state["hookcalls"] = state.get("hookcalls", 0) + 1
+                if stateful and state["hookcalls"] > 1:
+                    # the hook is user code with a state of its own (a budget, an alternating policy): its answer to a second question about the
+                    # same request is the opposite one -- the decision of a request is the answer it gave when it was asked
+                    return None if accepts[i] else [321.0, 654.0]
                 if not accepts[i]:
                     return None
                 p = sur.predict(individual.vector)
@@ -169,6 +176,7 @@ class Requests(Part):
             state["i"] = i
             state["last_true"] = state["last_pred"] = None
             state["pred_made"] = False
+            state["hookcalls"] = 0
             # vectors come from a small pool: the same design may be requested (and truly evaluated) several times
             ind = Individual(list(rng.choice(vpool)))
             if rng.random() < 0.25:
